@@ -137,7 +137,12 @@ class Unit:
         req_sat = solve.satisfiable(b.st.pc)
         if req_sat == z3.unsat:
             raise VacuityError(f'{self.name}: contradictory requires')
+        # the function runs on a COPY: the builder's state keeps the entry values (sidecars read parameters from it even when
+        # the code re-binds them)
+        entry = b.st
+        b.st = entry.copy()
         results = interp.run_function(node, b.st, stmt=self.stmt)
+        b.st = entry
         paths = [Path(s, o) for s, o in results]
         res = UnitResult(self, interp, paths, b)
         if self.post is not None:
